@@ -149,6 +149,7 @@ fn real_main() {
 			"C13" => {
 				props::c13::run(&mut out, &mut rng.fork(), thorough);
 				props::cli_extra::small_output_to_full_device(&mut out, "C13");
+				props::cli_extra::c13_repeated_options(&mut out);
 			}
 			"C14" => {
 				props::c14::run(&mut out, &mut rng.fork(), thorough);
